@@ -130,10 +130,36 @@ def _is_whoosh_frame(fr):
     return "/whoosh/" in fn and "/verif/" not in fn
 
 
+class CaseTimeout(BaseException):
+    pass
+
+
+CASE_TIMEOUT_S = int(os.environ.get("WV_CASE_TIMEOUT", "120"))
+
+
+def _alarm(signum, frame):
+    raise CaseTimeout()
+
+
 def execute(sub, case):
+    import signal
     out = Outcome()
+    use_alarm = hasattr(signal, "SIGALRM") and CASE_TIMEOUT_S > 0
+    if use_alarm:
+        signal.signal(signal.SIGALRM, _alarm)
+        signal.alarm(CASE_TIMEOUT_S)
     try:
         sub.run(case, out)
+    except CaseTimeout as e:
+        # a single small case running for minutes is an endless loop, not slowness: report where it spins
+        tb = traceback.extract_tb(e.__traceback__)
+        wf = [f for f in tb if _is_whoosh_frame(f)]
+        if not wf:
+            raise HarnessError("case exceeded %ds outside whoosh code" % CASE_TIMEOUT_S)
+        names = [f.name for f in wf[-3:]]
+        out.fail("hang:%s:%s" % (os.path.basename(wf[-1].filename), ">".join(names[:2])),
+                 "".join(traceback.format_list(tb))[-2500:])
+        return out
     except HarnessError:
         raise
     except (KeyboardInterrupt, SystemExit):
@@ -148,6 +174,9 @@ def execute(sub, case):
         else:
             raise HarnessError("exception outside whoosh in sub-check: %r\n%s" % (
                 e, "".join(traceback.format_exception(type(e), e, e.__traceback__)))) from e
+    finally:
+        if use_alarm:
+            signal.alarm(0)
     return out
 
 
